@@ -372,6 +372,11 @@ ADVERSARIAL_ENUMS = [
     [("A", 0), ("C", 2), ("B", 1)],                                        # 3-variant shuffle
     [("A", 10), ("B", None), ("C", None), ("D", 100), ("E", None), ("F", 7), ("G", None), ("H", None)],
     [("A", None), ("B", None), ("C", None), ("D", None), ("E", None), ("F", None), ("G", None), ("H", None)],
+    [("Zero", 0), ("MinusOne", -1), ("MinusTwo", -2)],                     # |discriminant| == position
+    [("Origin", None), ("Below", -1), ("Far", 40), ("Next", None)],
+    [("A", 1), ("B", 0)],                                                  # two-variant swap
+    [("A", 0), ("B", 1), ("C", 3), ("D", 2)],                              # contiguous prefix, then swapped tail
+    [("A", -1), ("B", 0), ("C", 1)],                                       # contiguous run starting below zero
 ]
 ADVERSARIAL_ENUMS[5] = [("A", None), ("B", 2), ("C", 1)]                   # implicit 0, then descending explicit
 
